@@ -7,7 +7,7 @@ from . import common as C
 
 PROPERTY = 'C06'
 BUDGET = {'quick': 200, 'thorough': 1500}
-GLOBAL_BUDGET = {'quick': 480, 'thorough': 3600}
+GLOBAL_BUDGET = {'quick': 480, 'thorough': 4200}
 LAST_CONFIG_INFO = {}
 
 META = {
@@ -72,12 +72,18 @@ def jobs(tier, seed):
                 if n > 3 or (n == 3 and not (vec == ['1', '1', '1'] and recv in ('dv', 'money'))):
                     if recv != 'mass':
                         continue
-            elif n > 4:
-                continue
+            else:
+                # thorough: n = 3 on three receivers, one n = 4 vector on DataVolume (about 20 min), no n = 5
+                if n > 4:
+                    continue
+                if n == 4 and not (recv == 'dv' and vec == ['38', '5', '2', '15']) and recv != 'mass':
+                    continue
+                if n == 3 and recv in ('user6',) and vec != ['1', '1', '1']:
+                    continue
             for disperse in ((True, False) if (tier == 'thorough' or j % 3 == 0) else (True,)):
                 out.append({'fn': 'amount_sym', 'cfg': {'recv': recv, 'ratios': vec, 'disperse': disperse,
                                                         'mode': modes[j % len(modes)]},
-                            'opts': {'feas_ms': 1000, 'budget_s': 170 if tier == 'quick' else 1200}})
+                            'opts': {'feas_ms': 1000, 'budget_s': 170 if tier == 'quick' else 2400}})
                 j += 1
     for qv in QVECTORS:
         if tier == 'thorough':
